@@ -12,6 +12,7 @@ mod attrprops;
 mod ropeprop;
 mod safety;
 mod jsonprop;
+mod conc;
 mod treeprops;
 
 use runner::*;
@@ -102,6 +103,8 @@ fn main() {
     if !violated.is_empty() { j["oracle_failures"] = json!(j["oracle_failures"].as_u64().unwrap_or(0) + violated.len() as u64); j["unknown_oracle_failures"] = json!(j["unknown_oracle_failures"].as_u64().unwrap_or(0) + violated.len() as u64); }
     j["extra"] = json!({ "unsafe_sites_reached": reached, "unsafe_sites_violated": violated });
     j
+  } else if id == "C18" {
+    conc::run(seed, cases, &cfg.driver, thorough)
   } else if id == "C15" {
     simple::run_simple("C15", &jsonprop::gen, &jsonprop::corpus(), &cfg)
   } else if id == "C16" {
